@@ -126,6 +126,12 @@ Definition starts_with_p_b ck (h : bview) (a : view) : res bool :=
 Definition ends_with_p_b ck (h : bview) (a : view) : res bool :=
   with_cstr a (fun n => ends_with_b ck h (of_view n)).
 
+(* `s OP v` and `v OP s` with a C string s (the type_identity overloads) *)
+Definition rel_pl_b ck (a : view) (v : bview) : res (list bool) :=
+  with_cstr a (fun n => rel6_b ck (of_view n) v).
+Definition rel_pr_b ck (v : bview) (a : view) : res (list bool) :=
+  with_cstr a (fun n => rel6_b ck v (of_view n)).
+
 (** element access (operator[] / front / back with their contract checks) *)
 Definition index_b (v : bview) (pos : Z) : res Z := if pos <? blen v then rdb v pos else Contract.
 Definition back_b (v : bview) : res Z := if blen v =? 0 then Contract else rdb v (sz (blen v - 1)).
